@@ -37,6 +37,12 @@ def code_for(idx, style):
         return bytes([0x10 + (idx + 1) % 6, 0x02])
     if style == 3:
         return bytes([0x00, 0x40 + idx])  # multi-byte code whose first byte is 00
+    if style == 5:
+        return bytes([0xFE, 0x01 + idx])          # styles 5-7: codes of different LENGTHS that share their first byte (still prefix-free)
+    if style == 6:
+        return bytes([0xFE, 0x41 + idx, 0x03])
+    if style == 7:
+        return bytes([0xFE, 0x81 + idx, 0x04, 0x05])
     return bytes([0x10])  # style 4: duplicate of entry 0's one-byte code
 
 
@@ -46,6 +52,12 @@ def all_tables():
         for subset in itertools.combinations(range(len(TEXTS)), k):
             for styles in itertools.product(range(4), repeat=k):
                 out.append({TEXTS[i]: code_for(i, s) for i, s in zip(subset, styles)})
+    # codes that share a first byte but differ in length
+    for k in (2, 3):
+        for subset in itertools.combinations(range(len(TEXTS)), k):
+            for styles in itertools.product((0, 5, 6, 7), repeat=k):
+                if len(set(styles) & {5, 6, 7}) >= 2:
+                    out.append({TEXTS[i]: code_for(i, st) for i, st in zip(subset, styles)})
     # duplicate codes (flagged non-unique: encoding is still defined, round trip is not claimed)
     for subset in itertools.combinations(range(len(TEXTS)), 2):
         out.append({TEXTS[subset[0]]: code_for(subset[0], 4), TEXTS[subset[1]]: code_for(subset[1], 4)})
